@@ -9,6 +9,7 @@
 import numpy as np
 from sklearn import metrics
 from scipy import optimize
+from scipy.spatial.distance import cdist
 import warnings
 
 __all__ = ["wasserstein"]
@@ -71,7 +72,9 @@ def wasserstein(dgm1, dgm2, matching=False):
         T = np.array([[0, 0]])
         N = 1
     # Compute CSM between S and dgm2, including points on diagonal
-    DUL = metrics.pairwise.pairwise_distances(S, T)
+    # (cdist subtracts coordinates; the dot-product expansion used by sklearn
+    # loses half the digits and makes d(X, X) slightly non-zero)
+    DUL = cdist(S, T)
 
     # Put diagonal elements into the matrix
     # Rotate the diagrams to make it easy to find the straight line
